@@ -8,6 +8,7 @@ import ImmuModel.Merkle.Verify
 import ImmuModel.Merkle.AHTree
 import ImmuModel.Merkle.HTree
 import ImmuModel.Merkle.Proofs.InclSound
+import ImmuModel.Merkle.Proofs.Roots
 import ImmuModel.Merkle.MthLemmas
 
 namespace ImmuModel.Props.C08
@@ -66,6 +67,31 @@ theorem lastInclusion_sound (mh : MH D) (p : List D) (i : Nat) (leaf : D) (xs : 
     (hlen : xs.length = i) (hv : verifyLastInclusion mh p i leaf (mth mh xs) = true) :
     xs.getLast? = some leaf ∨ Coll mh :=
   verifyLastInclusion_sound mh p i leaf xs hlen hv
+
+/-- **Entry tree root.** `htree.BuildWith` (bottom-up pairing, odd node promoted) computes the
+reference root over the leaf-wrapped digests, for every width. -/
+theorem htree_root (mh : MH D) (enc : D → Bytes) (ds : List D) :
+    (HTree.build mh enc ds).root = mth mh (ds.map (fun d => mh.leafH (enc d))) :=
+  htree_root_eq_mth mh enc ds
+
+/-- **Appending is total** from the empty tree and stores exactly the payloads. -/
+theorem aht_append_total (mh : MH D) (ds : List Bytes) :
+    ∃ t, AHT.appendAll mh AHT.empty ds = some t ∧ t.payloads = ds :=
+  aht_appendAll_total mh ds
+
+/-- **Incremental roots.** After any number of appends, the root reported for every historical
+size `n` is the reference Merkle root of the first `n` leaves. -/
+theorem aht_root (mh : MH D) (ds : List Bytes) (t : AHT D) (n : Nat)
+    (ht : AHT.appendAll mh AHT.empty ds = some t) (h1 : 1 ≤ n) (h2 : n ≤ ds.length) :
+    AHT.rootAt t n = .ok (mth mh ((ds.take n).map mh.leafH)) :=
+  aht_rootAt_eq_mth mh ds t n ht h1 h2
+
+/-- **Roll back and re-append** equals building from scratch over the kept prefix. -/
+theorem aht_rollback (mh : MH D) (xs ys : List Bytes) (t t' : AHT D) (m : Nat)
+    (ht : AHT.appendAll mh AHT.empty xs = some t) (hm : m ≤ xs.length)
+    (hr : AHT.resetSize t m = some t') :
+    AHT.appendAll mh t' ys = AHT.appendAll mh AHT.empty (xs.take m ++ ys) :=
+  aht_reset_append mh xs ys t t' m ht hm hr
 
 /-! Non-vacuity: a free (collision-free) hash over a term algebra; the hypotheses of
 `inclusion_sound` are met by a genuine proof in a 3-leaf tree. -/
